@@ -266,6 +266,21 @@ func scenarioAffinity() int {
 				trace = append(trace, fmt.Sprintf("req %s on c%d (sent-by %s)", t.id, t.conn, t.sentBy))
 			default:
 				status := 200
+				bigFirst := ""
+				if t.nprov == 1 && t.reqObs.Proto == "udp" && g.R.Intn(3) == 0 {
+					// the last provisional answer is a big one (183 with a session description) and the
+					// final answer follows it in the same breath, from the same socket
+					t.nprov = 0
+					bigFirst = t.id + "r183big"
+					big := afResponse(t.reqObs.Msg, 183, t.id, bigFirst)
+					wire.WithBody(big, []byte(strings.Repeat("a=rtpmap:96 opus/48000/2\r\n", 70)))
+					for _, e := range sv.BeUDP {
+						if e.Name == t.reqObs.Ep {
+							e.Send(fmt.Sprintf("%s:%d", sv.IP, sv.UDP), big.Bytes(), bigFirst)
+						}
+					}
+					trace = append(trace, fmt.Sprintf("big 183 and at once the final answer for %s (c%d)", t.id, t.conn))
+				}
 				if t.nprov > 0 {
 					t.nprov--
 					status = []int{100, 180, 183}[g.R.Intn(3)]
@@ -283,7 +298,7 @@ func scenarioAffinity() int {
 				if t.reqObs.Proto == "udp" {
 					for k, e := range sv.BeUDP {
 						if e.Name == t.reqObs.Ep {
-							if g.R.Intn(4) == 0 && altSock[sidx] != nil && altSock[sidx][k] != nil {
+							if bigFirst == "" && g.R.Intn(4) == 0 && altSock[sidx] != nil && altSock[sidx][k] != nil {
 								// the backend answers from another source port than it listens on
 								altSock[sidx][k].Send(fmt.Sprintf("%s:%d", sv.IP, sv.UDP), resp.Bytes(), rid)
 							} else {
@@ -304,6 +319,9 @@ func scenarioAffinity() int {
 					trace = trace[1:]
 				}
 				obs, _ := w.Net.WaitCase(rid, func(o []*wire.Obs) bool { return len(o) >= 1 }, w.BarrierWait)
+				if bigFirst != "" {
+					w.Net.WaitCase(bigFirst, func(o []*wire.Obs) bool { return len(o) >= 1 }, w.BarrierWait)
+				}
 				w.Net.Drain()
 				obs = w.Net.ForCase(rid)
 				want := conns[t.conn]
@@ -313,6 +331,17 @@ func scenarioAffinity() int {
 				}
 				newConns := accepted() - acc0
 				bad := len(obs) != 1 || obs[0].Proto != "tcp" || obs[0].Conn != want.ID || newConns != 0
+				if !bad && bigFirst != "" {
+					// the provisional answer sent right before it
+					obs = w.Net.ForCase(bigFirst)
+					where = nil
+					for _, o := range obs {
+						where = append(where, fmt.Sprintf("%s conn#%d %s<-%s", o.Ep, o.Conn, o.Local, o.Peer))
+					}
+					bad = len(obs) != 1 || obs[0].Proto != "tcp" || obs[0].Conn != want.ID
+					status = 183
+					respOK++
+				}
 				if bad {
 					key := "response not written to the connection that carried its request"
 					switch {
@@ -369,6 +398,5 @@ func scenarioAffinity() int {
 	if respOK < nsched {
 		run.Violation("observed-nothing", map[string]any{"responses": respOK})
 	}
-	_ = strings.ToUpper
 	return run.Finish(int64(nsched) / 2)
 }
